@@ -73,7 +73,7 @@ theorem terminated_is_frozen (s s' : St) (h : machine.Reachable s) (e : Ev) (hs 
   have hl := (hi.termLoc u).mp ht
   cases e <;>
     simp only [step, stepCreate, stepPush, stepPop, stepSetSt, stepRun, stepUserStart, stepUserEnd, stepCb, stepIncB,
-      stepDecB, stepResume, stepFinish, stepTerminate, stepFree, stepReqSet, stepReqClr, stepMigrate, stepJoinRet] at hs <;>
+      stepDecB, stepResume, stepFinish, stepTerminate, stepFree, stepReqSet, stepReqClr, stepMigrate, stepJoinRet, stepXferB] at hs <;>
     (repeat' (split at hs)) <;> (try cases hs) <;> simp_all [setLoc, upd, pushable] <;> grind
 
 /-- non-vacuity: a named unit terminates, is joined, revived, and runs once more -/
